@@ -117,14 +117,16 @@ class Verifier(Calls):
         if key in self.assumed_reads:
             return
         fact = None
+        # a value read from the untouched pre-state heap refers to a pre-existing object (closed heap)
+        bound = self.pre_alloc if (getattr(self, "pre_alloc", None) is not None and is_prestate_term(z3.simplify(t))) else self.comp("$alloc")
         if kind in ("list", "set", "frozenset", "dict", "exc") or (kind and kind[0].isupper()):
             r = Val.r(t)
-            fact = z3.And(Val.is_ref(t), r >= 0, r < self.comp("$alloc"), self.type_fact(r, ty))
+            fact = z3.And(Val.is_ref(t), r >= 0, r < bound, self.type_fact(r, ty))
         elif kind == "opt":
             ik = parse_tag(arg)[0]
             if ik in ("list", "set", "frozenset", "dict", "exc") or (ik and ik[0].isupper()):
                 r = Val.r(t)
-                fact = z3.Or(t == Val.none, z3.And(Val.is_ref(t), r >= 0, r < self.comp("$alloc"), self.type_fact(r, arg)))
+                fact = z3.Or(t == Val.none, z3.And(Val.is_ref(t), r >= 0, r < bound, self.type_fact(r, arg)))
             elif ik == "str":
                 fact = z3.Or(t == Val.none, Val.is_strv(t))
         elif kind == "str":
@@ -178,6 +180,7 @@ class Verifier(Calls):
         self.fresh_objs = {}
         self.closures = {}
         self.global_cache = {}
+        self.pre_alloc = None
         self.assume(self.comp("$alloc") >= 0)
 
     def run_path(self, c, f, mod, cls, fnode):
@@ -373,6 +376,29 @@ class Verifier(Calls):
         if assumes:
             body = z3.Implies(z3.And([self.spec_bool(parse_expr(a), env) for a in assumes]), body)
         return z3.ForAll(qv, body) if qv else body
+
+
+def is_prestate_term(t):
+    """term built only from entry-state arrays (name@0), parameters (p_name) and literals"""
+    seen = set()
+    todo = [t]
+    while todo:
+        x = todo.pop()
+        if x.get_id() in seen:
+            continue
+        seen.add(x.get_id())
+        if z3.is_app(x):
+            k = x.decl().kind()
+            if k in (z3.Z3_OP_STORE, z3.Z3_OP_ITE):
+                return False
+            if k == z3.Z3_OP_UNINTERPRETED and x.num_args() == 0:
+                nm = x.decl().name()
+                if nm == "$alloc@0" or not (nm.endswith("@0") or nm.startswith("p_")):
+                    return False
+        elif not z3.is_var(x):
+            return False
+        todo.extend(x.children())
+    return True
 
 
 # --------------------------------------------------------------------------
